@@ -344,6 +344,14 @@ fn run_sequence<K: Kit>(prop: &str, sc: &Scenario, seq: &[Op], faults: (Option<u
                 if !allowed.contains(&got) {
                     if prop == "C08" {
                         rep.violate(format!("C08|{name}|solve:{got}-allowed-{}", allowed.join("/")), format!("call {i}: solve returned {got}; with problem {pd:?}, checker {vc}, the API allows {allowed:?}"), || replay(i, json!({})));
+                    } else if let (Ok(path), Prob::Bad) = (&res, pd) {
+                        // C02: a path was returned while the most recently installed problem is the one whose start the
+                        // checker rejects - it answers that problem only if it begins at that start (C01 then has the rest)
+                        rep.count("ok_paths_checked", 1);
+                        let bad_start = &h.pbad.start_states[0];
+                        if path.is_empty() || !K::same(&path[0], bad_start) {
+                            rep.violate(format!("C02|{name}|history:first-state-not-latest-start"), format!("call {i}: solve returned a path that does not begin at the start of the most recently installed problem (whose start the checker rejects; an earlier problem was answered)"), || replay(i, json!({"path": path.iter().map(|s| K::to_v(s).json()).collect::<Vec<_>>()})));
+                        }
                     }
                     return;
                 }
